@@ -109,7 +109,150 @@ pub fn c20_value_de<const N: usize, const M: usize>() {
     }
 }
 
+// ------------------------------------------------------------------------------------------ a self-describing token format
+/// serde data-model tokens recorded by `Ser` and replayed by `De` (fixed array, no allocation).  Unlike bincode, this
+/// format distinguishes a sequence from a map, records the announced length, and gives unit a representation.
+#[derive(Clone, Copy, PartialEq, Debug)]
+pub enum Tk { U8(u8), Unit, Seq(Option<usize>), SeqEnd, Map(Option<usize>), MapEnd, Pad }
+pub struct Rec { pub t: [Tk; 24], pub n: usize, pub overflow: bool }
+impl Rec { pub fn new() -> Rec { Rec { t: [Tk::Pad; 24], n: 0, overflow: false } } fn push(&mut self, k: Tk) { if self.n < 24 { self.t[self.n] = k; self.n += 1; } else { self.overflow = true; } } }
+#[derive(Debug)]
+pub struct TErr;
+impl core::fmt::Display for TErr { fn fmt(&self, f: &mut core::fmt::Formatter<'_>) -> core::fmt::Result { f.write_str("token format error") } }
+impl serde::ser::Error for TErr { fn custom<T: core::fmt::Display>(_m: T) -> Self { TErr } }
+impl serde::de::Error for TErr { fn custom<T: core::fmt::Display>(_m: T) -> Self { TErr } }
+impl serde::ser::StdError for TErr {}
+
+pub struct Ser<'a>(pub &'a mut Rec);
+type Imp = serde::ser::Impossible<(), TErr>;
+impl<'a> serde::Serializer for Ser<'a> {
+    type Ok = ();
+    type Error = TErr;
+    type SerializeSeq = Ser<'a>;
+    type SerializeTuple = Imp;
+    type SerializeTupleStruct = Imp;
+    type SerializeTupleVariant = Imp;
+    type SerializeMap = Ser<'a>;
+    type SerializeStruct = Imp;
+    type SerializeStructVariant = Imp;
+    fn serialize_u8(self, v: u8) -> Result<(), TErr> { self.0.push(Tk::U8(v)); Ok(()) }
+    fn serialize_unit(self) -> Result<(), TErr> { self.0.push(Tk::Unit); Ok(()) }
+    fn serialize_seq(self, len: Option<usize>) -> Result<Ser<'a>, TErr> { self.0.push(Tk::Seq(len)); Ok(self) }
+    fn serialize_map(self, len: Option<usize>) -> Result<Ser<'a>, TErr> { self.0.push(Tk::Map(len)); Ok(self) }
+    fn collect_str<T: ?Sized + core::fmt::Display>(self, _v: &T) -> Result<(), TErr> { Err(TErr) }
+    fn serialize_bool(self, _v: bool) -> Result<(), TErr> { Err(TErr) }
+    fn serialize_i8(self, _v: i8) -> Result<(), TErr> { Err(TErr) }
+    fn serialize_i16(self, _v: i16) -> Result<(), TErr> { Err(TErr) }
+    fn serialize_i32(self, _v: i32) -> Result<(), TErr> { Err(TErr) }
+    fn serialize_i64(self, _v: i64) -> Result<(), TErr> { Err(TErr) }
+    fn serialize_u16(self, _v: u16) -> Result<(), TErr> { Err(TErr) }
+    fn serialize_u32(self, _v: u32) -> Result<(), TErr> { Err(TErr) }
+    fn serialize_u64(self, _v: u64) -> Result<(), TErr> { Err(TErr) }
+    fn serialize_f32(self, _v: f32) -> Result<(), TErr> { Err(TErr) }
+    fn serialize_f64(self, _v: f64) -> Result<(), TErr> { Err(TErr) }
+    fn serialize_char(self, _v: char) -> Result<(), TErr> { Err(TErr) }
+    fn serialize_str(self, _v: &str) -> Result<(), TErr> { Err(TErr) }
+    fn serialize_bytes(self, _v: &[u8]) -> Result<(), TErr> { Err(TErr) }
+    fn serialize_none(self) -> Result<(), TErr> { Err(TErr) }
+    fn serialize_some<T: ?Sized + serde::Serialize>(self, _v: &T) -> Result<(), TErr> { Err(TErr) }
+    fn serialize_unit_struct(self, _n: &'static str) -> Result<(), TErr> { Err(TErr) }
+    fn serialize_unit_variant(self, _n: &'static str, _i: u32, _v: &'static str) -> Result<(), TErr> { Err(TErr) }
+    fn serialize_newtype_struct<T: ?Sized + serde::Serialize>(self, _n: &'static str, _v: &T) -> Result<(), TErr> { Err(TErr) }
+    fn serialize_newtype_variant<T: ?Sized + serde::Serialize>(self, _n: &'static str, _i: u32, _var: &'static str, _v: &T) -> Result<(), TErr> { Err(TErr) }
+    fn serialize_tuple(self, _l: usize) -> Result<Imp, TErr> { Err(TErr) }
+    fn serialize_tuple_struct(self, _n: &'static str, _l: usize) -> Result<Imp, TErr> { Err(TErr) }
+    fn serialize_tuple_variant(self, _n: &'static str, _i: u32, _v: &'static str, _l: usize) -> Result<Imp, TErr> { Err(TErr) }
+    fn serialize_struct(self, _n: &'static str, _l: usize) -> Result<Imp, TErr> { Err(TErr) }
+    fn serialize_struct_variant(self, _n: &'static str, _i: u32, _v: &'static str, _l: usize) -> Result<Imp, TErr> { Err(TErr) }
+}
+impl<'a> serde::ser::SerializeSeq for Ser<'a> {
+    type Ok = ();
+    type Error = TErr;
+    fn serialize_element<T: ?Sized + serde::Serialize>(&mut self, v: &T) -> Result<(), TErr> { v.serialize(Ser(&mut *self.0)) }
+    fn end(self) -> Result<(), TErr> { self.0.push(Tk::SeqEnd); Ok(()) }
+}
+impl<'a> serde::ser::SerializeMap for Ser<'a> {
+    type Ok = ();
+    type Error = TErr;
+    fn serialize_key<T: ?Sized + serde::Serialize>(&mut self, k: &T) -> Result<(), TErr> { k.serialize(Ser(&mut *self.0)) }
+    fn serialize_value<T: ?Sized + serde::Serialize>(&mut self, v: &T) -> Result<(), TErr> { v.serialize(Ser(&mut *self.0)) }
+    fn end(self) -> Result<(), TErr> { self.0.push(Tk::MapEnd); Ok(()) }
+}
+
+pub struct De<'a> { pub t: &'a [Tk], pub pos: usize }
+impl<'a> De<'a> { fn peek(&self) -> Tk { if self.pos < self.t.len() { self.t[self.pos] } else { Tk::Pad } } }
+impl<'de, 'a, 'b> serde::Deserializer<'de> for &'b mut De<'a> {
+    type Error = TErr;
+    fn deserialize_any<V: serde::de::Visitor<'de>>(self, v: V) -> Result<V::Value, TErr> {
+        let k = self.peek();
+        self.pos += 1;
+        match k {
+            Tk::U8(x) => v.visit_u8(x),
+            Tk::Unit => v.visit_unit(),
+            Tk::Seq(_) => v.visit_seq(Acc(&mut *self)),
+            Tk::Map(_) => v.visit_map(Acc(&mut *self)),
+            _ => Err(TErr),
+        }
+    }
+    serde::forward_to_deserialize_any! { bool i8 i16 i32 i64 i128 u8 u16 u32 u64 u128 f32 f64 char str string bytes byte_buf option unit unit_struct
+        newtype_struct seq tuple tuple_struct map struct enum identifier ignored_any }
+}
+struct Acc<'b, 'a>(&'b mut De<'a>);
+impl<'de, 'a, 'b> serde::de::SeqAccess<'de> for Acc<'b, 'a> {
+    type Error = TErr;
+    fn next_element_seed<S: serde::de::DeserializeSeed<'de>>(&mut self, seed: S) -> Result<Option<S::Value>, TErr> {
+        if self.0.peek() == Tk::SeqEnd { self.0.pos += 1; return Ok(None); }
+        seed.deserialize(&mut *self.0).map(Some)
+    }
+}
+impl<'de, 'a, 'b> serde::de::MapAccess<'de> for Acc<'b, 'a> {
+    type Error = TErr;
+    fn next_key_seed<S: serde::de::DeserializeSeed<'de>>(&mut self, seed: S) -> Result<Option<S::Value>, TErr> {
+        if self.0.peek() == Tk::MapEnd { self.0.pos += 1; return Ok(None); }
+        seed.deserialize(&mut *self.0).map(Some)
+    }
+    fn next_value_seed<S: serde::de::DeserializeSeed<'de>>(&mut self, seed: S) -> Result<S::Value, TErr> { seed.deserialize(&mut *self.0) }
+}
+
+/// round trip through the token format: the emitted shape is a map (resp. a sequence) announcing exactly len() entries and
+/// containing exactly len() of them, and reading the tokens back into any capacity M >= len gives an equal container
+pub fn c20_tokens<const N: usize, const M: usize>() {
+    use serde::{Deserialize, Serialize};
+    let (m, md) = any_u8_map::<N>();
+    vf::assume(md.n <= M);
+    let mut rec = Rec::new();
+    vf::check(m.serialize(Ser(&mut rec)).is_ok() && !rec.overflow, 2004);
+    vf::check(rec.t[0] == Tk::Map(Some(md.n)), 2001);
+    vf::check(rec.n == 2 + 2 * md.n && rec.t[(1 + 2 * md.n) % 24] == Tk::MapEnd, 2002);
+    let p = vf::any_usize();
+    if p < md.n {
+        // every entry is a (u8 key, u8 value) pair of the source map
+        match (rec.t[(1 + 2 * p) % 24], rec.t[(2 + 2 * p) % 24]) { (Tk::U8(k), Tk::U8(v)) => vf::check(md.get(k) == Some(v), 2002), _ => vf::check(false, 2002) }
+    }
+    let mut de = De { t: &rec.t[..rec.n], pos: 0 };
+    match Map::<u8, u8, M>::deserialize(&mut de) {
+        Ok(d) => { vf::reach(1); vf::check(d == m && m == d && de.pos == rec.n, 2003); }
+        Err(_) => vf::check(false, 2004),
+    }
+    same_u8_map(&m, &md);
+    // sets
+    let (s, sd) = any_u8_set::<N>();
+    vf::assume(sd.n <= M);
+    let mut rec = Rec::new();
+    vf::check(s.serialize(Ser(&mut rec)).is_ok() && !rec.overflow, 2004);
+    vf::check(rec.t[0] == Tk::Seq(Some(sd.n)), 2001);
+    vf::check(rec.n == 2 + sd.n && rec.t[(1 + sd.n) % 24] == Tk::SeqEnd, 2002);
+    if p < sd.n { match rec.t[(1 + p) % 24] { Tk::U8(k) => vf::check(sd.has(k), 2002), _ => vf::check(false, 2002) } }
+    let mut de = De { t: &rec.t[..rec.n], pos: 0 };
+    match Set::<u8, M>::deserialize(&mut de) {
+        Ok(d) => { vf::check(d == s && de.pos == rec.n, 2003); }
+        Err(_) => vf::check(false, 2004),
+    }
+    same_u8_set(&s, &sd);
+}
+
 harnesses! {
+    c20_tokens: [0, 0] [1, 1] [2, 2] [2, 3] [3, 3];
     c20_value_de: [1, 1] [2, 2] [2, 3] [3, 3];
     c20_bincode_map: [0, 0] [1, 1] [2, 2] [3, 3] [2, 3] [1, 3];
     c20_bincode_set: [0, 0] [1, 1] [2, 2] [3, 3] [2, 3] [1, 3];
